@@ -560,7 +560,9 @@ class CollectionBase:
                     if issubclass(_type, bool):
                         # bools are subclasses of int (WAT) - have to check first
                         writer.field(field, 'L')
-                    elif issubclass(_type, (float, int)) and not issubclass(_type, datetime):
+                    elif issubclass(_type, float):
+                        writer.field(field, 'N', decimal=15)
+                    elif issubclass(_type, int) and not issubclass(_type, datetime):
                         # datetimes are subclasses of ints too
                         writer.field(field, 'N')
                     else:
